@@ -485,6 +485,19 @@ def translate(path, names):
             ident = qual.replace(".", "_")
             found[qual] = "Definition src_%s : func :=\n  {| f_params := %s;\n     f_body := %s |}.\n" % (
                 ident, lst([cstr(p) for p in params]), body)
+            # default values of the trailing parameters (constants only; a function with any other
+            # default gets no defaults_ definition, so a proof that needs it fails closed)
+            try:
+                dnames = params[len(params) - len(a.defaults):] if a.defaults else []
+                dvals = []
+                for d in a.defaults:
+                    if not isinstance(d, ast.Constant):
+                        raise Unsupported("non-constant default")
+                    dvals.append(tr.expr(d))
+                found[qual] += "Definition defaults_%s : list (string * expr) := %s.\n" % (
+                    ident, lst(["(%s, %s)" % (cstr(n_), v_) for n_, v_ in zip(dnames, dvals)]))
+            except Unsupported:
+                pass
             if cls is not None:
                 if cls.keywords and any(k.arg != "metaclass" for k in cls.keywords):
                     raise Unsupported("class keywords of " + cls.name)
